@@ -241,10 +241,20 @@ impl TryFromTerm for f64 {
 
     fn try_from_term<T: Term>(term: T) -> Result<Self, Self::Error> {
         if let Some(lex) = term.lexical_form() {
+            let decimal = Term::eq(&term.datatype().unwrap(), xsd::decimal);
             if Term::eq(&term.datatype().unwrap(), xsd::double)
                 || Term::eq(&term.datatype().unwrap(), xsd::float)
-                || Term::eq(&term.datatype().unwrap(), xsd::decimal)
+                || decimal
             {
+                // Rust's parser is more lenient than XSD:
+                // it accepts "inf", "infinity" and "nan" in any case,
+                // where xsd:double and xsd:float only have INF, +INF, -INF and NaN,
+                // and xsd:decimal has neither special values nor exponents.
+                let special = matches!(&lex[..], "INF" | "+INF" | "-INF" | "NaN");
+                let letters = |b: u8| b.is_ascii_alphabetic() && (decimal || !matches!(b, b'e' | b'E'));
+                if (special && decimal) || (!special && lex.bytes().any(letters)) {
+                    return "invalid lexical form".parse();
+                }
                 lex.parse()
             } else {
                 "wrong datatype".parse()
